@@ -108,7 +108,9 @@ fn worker(a: Args) {
     mon::open_journal(&format!("{}/journal.{}", a.out, a.shard));
     mon::start_watchdog(prop.cpu_budget_s(), a.prop.clone(), a.shard);
     let mut ctx = Ctx::new(&a.prop, a.tier, a.seed, a.shard, a.nshards);
-    let total = prop.cases(a.tier);
+    // VERIF_CASES_SCALE: run a fraction / multiple of the tier's cases (validation sweeps use < 1)
+    let scale: f64 = std::env::var("VERIF_CASES_SCALE").ok().and_then(|v| v.parse().ok()).unwrap_or(1.0);
+    let total = ((prop.cases(a.tier) as f64) * scale).max(1.0) as u64;
     let t0 = Instant::now();
     let mut complete = true;
     let mut next = total;
